@@ -707,4 +707,103 @@ def ecModelCS [Add K] [Sub K] [Mul K] [Div K] [Neg K] [One K] [OfNat K 0] [IntCa
   | none => none
   | some nc => ecModel fac u (fun _ => nc) c
 
+/-! ### objects with state
+
+  A `Box` object keeps `__reciprocal_vects` once `reciprocal_vects` was asked for (by
+  `position_cartesian_to_relative`, hence by `System.model` with a `'scaled'` property); the `vects` setter —
+  and so `set(...)`, and so `Box.model(model=…)` on an existing object — drops it. -/
+
+structure BoxObj (K : Type) where
+  box : Box K
+  cache : Option (M3 K)
+
+namespace BoxObj
+variable [Add K] [Sub K] [Mul K] [Div K]
+
+/-- a freshly constructed `Box`. -/
+def ofBox (b : Box K) : BoxObj K := ⟨b, none⟩
+
+/-- the `reciprocal_vects` property: computed on first use, then kept. -/
+def recipVects (b : BoxObj K) : M3 K × BoxObj K :=
+  match b.cache with
+  | some r => (r, b)
+  | none => (b.box.recip, ⟨b.box, some b.box.recip⟩)
+
+/-- `position_cartesian_to_relative`: `np.inner(pos - origin, self.reciprocal_vects)`. -/
+def cartToRel (b : BoxObj K) (p : V3 K) : V3 K × BoxObj K :=
+  ((M3.mulVec b.recipVects.1 (p - b.box.origin)), b.recipVects.2)
+
+/-- the `vects` setter: near-zero clean-up, the kept reciprocal vectors are dropped. -/
+def setVects [Neg K] [OfNat K 0] [LT K] [DecidableLT K] (eps : K) (b : BoxObj K) (m : M3 K) : BoxObj K :=
+  ⟨⟨cleanVects eps m, b.box.origin⟩, none⟩
+
+/-- the `origin` setter (the reciprocal vectors do not depend on it). -/
+def setOrigin (b : BoxObj K) (o : V3 K) : BoxObj K := ⟨⟨b.box.vects, o⟩, b.cache⟩
+
+/-- `box.model(model=t)` on an existing object: the four vectors are read and handed to
+    `set(avect=…, bvect=…, cvect=…, origin=…)`, i.e. to the two setters. -/
+def readModel [Neg K] [One K] [OfNat K 0] [IntCast K] [LT K] [DecidableLT K]
+    (fac : String → K) (eps : K) (b : BoxObj K) (t : DM K) : Option (BoxObj K) :=
+  match boxRead fac eps t with
+  | none => none
+  | some bx => some ((⟨⟨bx.vects, b.box.origin⟩, none⟩ : BoxObj K).setOrigin bx.origin)
+
+/-- the kept reciprocal vectors, if any, are those of the current cell. -/
+def Coherent (b : BoxObj K) : Prop := ∀ r, b.cache = some r → r = b.box.recip
+
+end BoxObj
+
+/-- `sysPropModel` with the Cartesian → relative map as a parameter. -/
+def sysPropModelR [Mul K] [Div K] [One K] [IntCast K]
+    (fac : String → K) (c2r : V3 K → V3 K) (a : AtomsM K) (pu : String × Option String) : Option (DM K) :=
+  match propModel fac a pu with
+  | none => none
+  | some pm =>
+    if effUnit pu.1 pu.2 = some "scaled" then
+      match pm.get? "data" with
+      | none => none
+      | some d =>
+        match (valueUnit fac d).bind (mapPositions c2r) with
+        | none => none
+        | some rel =>
+          match ucModel fac (some "scaled") rel with
+          | none => none
+          | some d' => some (.node [("name", .leaf (.str pu.1)), ("data", d')])
+    else some pm
+
+/-- `systemModel` with the Cartesian → relative map as a parameter. -/
+def systemModelR [Mul K] [Div K] [One K] [IntCast K]
+    (fac : String → K) (boxUnit : Option String) (pu : List (String × Option String))
+    (s : SystemM K) (c2r : V3 K → V3 K) : Option (DM K) :=
+  match boxModel fac boxUnit s.box, mapOpt (sysPropModelR fac c2r s.atoms) pu with
+  | some (.node [("box", bm)]), some ps =>
+    let masses := if s.masses.any Option.isSome then s.masses.map massLeaf else []
+    some (.node [("atomic-system", .node (
+      [("box", bm), ("periodic-boundary-condition", .list (s.pbc.map (fun b => .leaf (.bool b))))]
+      ++ appendAll "atom-type-symbol" (s.symbols.map symLeaf)
+      ++ appendAll "atom-type-mass" masses
+      ++ [("atoms", .node (("natoms", .leaf (.int s.atoms.natoms)) :: appendAll "property" ps))]))])
+  | _, _ => none
+
+/-- a `System` object: it *holds* its `Box` object (no copy), so the box's kept state travels with it. -/
+structure SysObj (K : Type) where
+  bobj : BoxObj K
+  pbc : List Bool
+  symbols : List (Option String)
+  masses : List (Option K)
+  atoms : AtomsM K
+
+/-- the value of the object: what a freshly built `System` with the same content would be. -/
+def SysObj.toSystem (s : SysObj K) : SystemM K := ⟨s.bobj.box, s.pbc, s.symbols, s.masses, s.atoms⟩
+
+/-- `system.model(box_unit, prop_unit=pu)` on the object: a `'scaled'` property goes through the box object's
+    `position_cartesian_to_relative`, i.e. through the kept reciprocal vectors (filled on first use). -/
+def SysObj.model [Add K] [Sub K] [Mul K] [Div K] [One K] [IntCast K]
+    (fac : String → K) (boxUnit : Option String) (pu : List (String × Option String)) (s : SysObj K) :
+    Option (DM K) × SysObj K :=
+  if pu.any (fun e => effUnit e.1 e.2 = some "scaled") then
+    (systemModelR fac boxUnit pu s.toSystem (fun p => (s.bobj.cartToRel p).1),
+     { s with bobj := s.bobj.recipVects.2 })
+  else (systemModelR fac boxUnit pu s.toSystem (fun p => (s.bobj.cartToRel p).1), s)
+
 end Atomman.C10
